@@ -756,6 +756,52 @@ def from_point(ecm_src):
             "  (d, g)\n")
 
 
+# ------------------------------------------------------------------ control flow modelled by hand
+
+# Ymq/Model/Suyama.lean follows these bodies by hand (ladder of `element`, the tests for a vanishing denominator, which
+# gcd is reported, panic sites, curve selection of `ecm()` / `ecm128::ecm`); their straight-line parts are the
+# translated terms above. The bodies are pinned (sha256 of the text without comments and white space): an edit of
+# any of them must be re-read against the model, and the pin renewed, before the tie holds again.
+PINNED = {
+    "Suyama11::new": "86c67b714f17c0c0",
+    "Suyama11::element": "e3f735ace1125583",
+    "Suyama11::params": "ca22f5d502bd86d6",
+    "Suyama11::params_point": "ac76c24a72a35300",
+    "Curve::fraction_modn": "76e4d2430ae676a5",
+    "Curve::from_point": "2894df8afd5cab66",
+    "Curve::twisted_from_point": "1fa700d544a59fab",
+    "UnexpectedLargeFactor::new": "d1de543ed892b166",
+    "ecm.rs::zn_divide": "84ac1b5c4ce83086",
+    "ecm.rs::ecm": "1cbc99484f8740f7",
+    "ecm128.rs::ecm": "4a880d5e593629ba",
+    "ecm128 From<&ecm::Curve>::from": "61f0dc617c3c45e9",
+}
+
+
+def check_pins(files):
+    import hashlib
+    e, e128 = files["src/ecm.rs"], files["src/ecm128.rs"]
+    suy = impl_block(e, SUY, "Suyama11 impl")
+    ecm = impl_block(e, ECM, "ecm Curve impl")
+    ulf = impl_block(e, r"^impl UnexpectedLargeFactor \{", "UnexpectedLargeFactor impl")
+    frm = impl_block(e128, r"^impl From<&ecm::Curve> for Curve \{", "ecm128 From impl")
+    bodies = {}
+    for nm in ("new", "element", "params", "params_point"):
+        bodies["Suyama11::" + nm] = fn_source(suy, nm, "Suyama11::" + nm)[2]
+    for nm in ("fraction_modn", "from_point", "twisted_from_point"):
+        bodies["Curve::" + nm] = fn_source(ecm, nm, "Curve::" + nm)[2]
+    bodies["UnexpectedLargeFactor::new"] = fn_source(ulf, "new", "UnexpectedLargeFactor::new")[2]
+    bodies["ecm.rs::zn_divide"] = fn_source(e, "zn_divide", "zn_divide")[2]
+    bodies["ecm.rs::ecm"] = fn_source(e, "ecm", "ecm::ecm")[2]
+    bodies["ecm128.rs::ecm"] = fn_source(e128, "ecm", "ecm128::ecm")[2]
+    bodies["ecm128 From<&ecm::Curve>::from"] = fn_source(frm, "from", "ecm128 From::from")[2]
+    for k, want in PINNED.items():
+        got = hashlib.sha256(re.sub(r"\s+", "", re.sub(r"//[^\n]*", "", bodies[k])).encode()).hexdigest()[:16]
+        if got != want:
+            raise ExtractError(f"{k}: the body modelled by hand in Ymq/Model/Suyama.lean has changed (pin {want}, now {got})")
+    return len(PINNED)
+
+
 def run():
     fns, files = parse_all()
     cap, capl = chain_caps(files["src/ecm.rs"], files["src/ecm128.rs"])
@@ -786,8 +832,9 @@ def run():
     GROUPS["none"] = dict(kind="zn", selfs={}, selfparams=[])
     extra = [em.fn(sc), from_point(files["src/ecm.rs"])]
     out = HEADER.format(cap=cap, capl=capl) + "\n".join([em.fn(f) for f in order] + extra) + "\nend Ymq.Gen.Curves\n"
+    npin = check_pins(files)
     write_gen("Curves", out, ["src/ecm.rs", "src/ecm128.rs"])
-    return f"{len(order)} formulas, chain capacities {cap}/{capl}"
+    return f"{len(order)} formulas, chain capacities {cap}/{capl}, {npin} hand-modelled bodies pinned"
 
 
 if __name__ == "__main__":
